@@ -57,6 +57,8 @@ class CloneSpec:
     index: int | None = None
     value_mapper: dict[SSAValue, SSAValue] | None = None
     block_mapper: dict[Block, Block] | None = None
+    clone_operands: bool = True
+    clone_name_hints: bool = True
 
 
 @dataclass
@@ -218,11 +220,14 @@ def _create_block(g: G) -> Act | None:
     else:
         ops = g.some(lambda: g.op(detached_op), 3) if g.s.flag(1, 2) else []
     atypes = [g.typ() for _ in range(g.s.weighted((3, 3, 1)))]
+    lazy = g.s.flag(1, 4)
+    arg: Any = _lazy(ops) if lazy else ops
+    targ: Any = _lazy(atypes) if lazy else atypes
     return Act(
         "Block.__init__",
-        lambda: Block(ops, arg_types=atypes),
+        lambda: Block(arg, arg_types=targ),
         list(ops),
-        f"Block({g.ns(ops)}, arg_types={len(atypes)})",
+        f"Block({'iter(' if lazy else ''}{g.ns(ops)}{')' if lazy else ''}, arg_types={len(atypes)})",
     )
 
 
@@ -235,11 +240,13 @@ def _create_region(g: G) -> Act | None:
     else:
         blocks = g.some(lambda: g.block(detached_block), 3) if g.s.flag(2, 3) else []
     single = len(blocks) == 1 and g.s.flag(1, 2)
+    lazy = not single and g.s.flag(1, 4)
+    arg: Any = _lazy(blocks) if lazy else blocks
     return Act(
         "Region.__init__",
-        (lambda: Region(blocks[0])) if single else (lambda: Region(blocks)),
+        (lambda: Region(blocks[0])) if single else (lambda: Region(arg)),
         list(blocks),
-        f"Region({g.n(blocks[0]) if single else g.ns(blocks)})",
+        f"Region({g.n(blocks[0]) if single else ('iter(' + g.ns(blocks) + ')' if lazy else g.ns(blocks))})",
     )
 
 
@@ -274,6 +281,9 @@ def _add_ops(g: G) -> Act | None:
     if b is None:
         return None
     ops = g.some(lambda: _new_op_for(g, b), 3, distinct=not g.faulty)
+    if g.s.flag(1, 3):
+        arg = _lazy(ops)
+        return Act("Block.add_ops", lambda: b.add_ops(arg), [b, *ops], f"{g.n(b)}.add_ops(iter({g.ns(ops)}))")
     return Act("Block.add_ops", lambda: b.add_ops(ops), [b, *ops], f"{g.n(b)}.add_ops({g.ns(ops)})")
 
 
@@ -316,7 +326,8 @@ def _ins_ops_before(g: G) -> Act | None:
     if ex is None:
         return None
     ops = g.some(lambda: _new_op_for(g, b), 3, distinct=not g.faulty)
-    return Act("Block.insert_ops_before", lambda: b.insert_ops_before(ops, ex), [b, ex, *ops], f"{g.n(b)}.insert_ops_before({g.ns(ops)}, {g.n(ex)})")
+    arg: Any = tuple(ops) if g.s.flag(1, 3) else ops
+    return Act("Block.insert_ops_before", lambda: b.insert_ops_before(arg, ex), [b, ex, *ops], f"{g.n(b)}.insert_ops_before({g.ns(ops)}, {g.n(ex)})")
 
 
 @gen("Block.insert_ops_after", "blocklist", 2)
@@ -328,7 +339,8 @@ def _ins_ops_after(g: G) -> Act | None:
     if ex is None:
         return None
     ops = g.some(lambda: _new_op_for(g, b), 3, distinct=not g.faulty)
-    return Act("Block.insert_ops_after", lambda: b.insert_ops_after(ops, ex), [b, ex, *ops], f"{g.n(b)}.insert_ops_after({g.ns(ops)}, {g.n(ex)})")
+    arg: Any = tuple(ops) if g.s.flag(1, 3) else ops
+    return Act("Block.insert_ops_after", lambda: b.insert_ops_after(arg, ex), [b, ex, *ops], f"{g.n(b)}.insert_ops_after({g.ns(ops)}, {g.n(ex)})")
 
 
 @gen("Block.detach_op", "blocklist", 5)
@@ -558,9 +570,19 @@ def _new_blocks_for(g: G, r: Region, kmax: int) -> list[Block]:
     return g.some(lambda: g.block(lambda b: b.parent is None and not is_ancestor_or_self(b, r)), kmax)
 
 
+def _lazy(items: list[Any]) -> Any:
+    """A single-pass, side-effect-free generator over ``items`` (a legal ``Iterable``)."""
+    return (x for x in list(items))
+
+
 def _one_or_list(g: G, blocks: list[Block]) -> tuple[Any, str]:
     if len(blocks) == 1 and g.s.flag(1, 2):
         return blocks[0], g.n(blocks[0])
+    k = g.s.choice(3)
+    if k == 1:
+        return tuple(blocks), "(" + g.ns(blocks)[1:-1] + ")"
+    if k == 2:
+        return _lazy(blocks), "iter(" + g.ns(blocks) + ")"
     return blocks, g.ns(blocks)
 
 
@@ -1243,6 +1265,53 @@ def _clonable(g: G, node: Any) -> bool:
     return True
 
 
+def _mappers(g: G, src: Any) -> tuple[dict[Any, Any] | None, dict[Any, Any] | None, str]:
+    """The caller's mapper dictionaries for one clone call: none (defaults), fresh empty
+    ones, fresh ones pre-seeded with replacements for values / blocks defined *outside*
+    the cloned part (the documented way to rewire a copy), or a pair kept from an
+    earlier clone call of this run (entries that mention destroyed objects are purged by
+    the caller first)."""
+    k = g.s.weighted((4, 2, 2, 3))
+    if k == 0:
+        return None, None, ""
+    if k == 1:
+        vm: dict[Any, Any] = {}
+        bm: dict[Any, Any] = {}
+        d = "{}, {}"
+    elif k == 2 or not g.u.mappers:
+        inside = {id(x) for x in g.u.closure(src)}
+        vm, bm = {}, {}
+        outs_v = [v for v in g.u.values() if id(v) not in inside]
+        outs_b = [b for b in g.u.blocks if id(b) not in inside]
+        for _ in range(g.s.choice(4)):
+            if outs_v:
+                a, b2 = outs_v[g.s.choice(len(outs_v))], outs_v[g.s.choice(len(outs_v))]
+                vm[a] = b2
+        if outs_b and g.s.flag(1, 2):
+            a3, b3 = outs_b[g.s.choice(len(outs_b))], outs_b[g.s.choice(len(outs_b))]
+            bm[a3] = b3
+        d = "{" + ",".join(f"{g.n(a)}:{g.n(b)}" for a, b in vm.items()) + "}, {" + ",".join(f"{g.n(a)}:{g.n(b)}" for a, b in bm.items()) + "}"
+    else:
+        i = g.s.choice(len(g.u.mappers))
+        vm, bm = g.u.mappers[i]
+        for dct in (vm, bm):
+            for key in [key for key, val in dct.items() if g.u.is_dead(key) or g.u.is_dead(val) or isinstance(val, ErasedSSAValue)]:
+                del dct[key]
+        d = f"<mappers #{i} kept from an earlier clone: {len(vm)} values, {len(bm)} blocks>"
+    if all(vm is not m[0] for m in g.u.mappers) and len(g.u.mappers) < 4:
+        g.u.mappers.append((vm, bm))
+    return vm, bm, d
+
+
+def _clone_opts(g: G) -> tuple[dict[str, bool], str]:
+    kw: dict[str, bool] = {}
+    if g.s.flag(1, 8):
+        kw["clone_operands"] = False
+    if g.s.flag(1, 6):
+        kw["clone_name_hints"] = False
+    return kw, "".join(f", {k}={v}" for k, v in kw.items())
+
+
 @gen("Operation.clone", "clone", 5)
 def _clone_op(g: G) -> Act | None:
     if len(g.u.ops) >= 2 * g.max_ops:
@@ -1251,22 +1320,28 @@ def _clone_op(g: G) -> Act | None:
     o = o or g.op()
     if o is None or not _clonable(g, o):
         return None
-    spec = CloneSpec("op.clone", o)
-    if g.s.flag(1, 3):
-        spec.value_mapper, spec.block_mapper = {}, {}
-        return Act("Operation.clone", lambda: o.clone(spec.value_mapper, spec.block_mapper), [o], f"{g.n(o)}.clone({{}}, {{}})", clone=spec, group="clone")
-    return Act("Operation.clone", lambda: o.clone(), [o], f"{g.n(o)}.clone()", clone=spec, group="clone")
+    vm, bm, d = _mappers(g, o)
+    kw, kd = _clone_opts(g)
+    spec = CloneSpec("op.clone", o, value_mapper=vm, block_mapper=bm, clone_operands=kw.get("clone_operands", True))
+    if vm is None:
+        return Act("Operation.clone", lambda: o.clone(**kw), [o], f"{g.n(o)}.clone({kd[2:]})", clone=spec, group="clone")
+    return Act("Operation.clone", lambda: o.clone(vm, bm, **kw), [o, *vm.values(), *bm.values()], f"{g.n(o)}.clone({d}{kd})", clone=spec, group="clone")
 
 
-@gen("Operation.clone_without_regions", "clone", 2)
+@gen("Operation.clone_without_regions", "clone", 3)
 def _clone_op_wo(g: G) -> Act | None:
     if len(g.u.ops) >= 2 * g.max_ops:
         return None
     o = g.op()
     if o is None:
         return None
-    spec = CloneSpec("op.clone_without_regions", o)
-    return Act("Operation.clone_without_regions", lambda: o.clone_without_regions(), [o], f"{g.n(o)}.clone_without_regions()", clone=spec, group="clone")
+    # everything but the op's own results is "outside" a region-less clone
+    vm, bm, d = _mappers(g, None)
+    kw, kd = _clone_opts(g)
+    spec = CloneSpec("op.clone_without_regions", o, value_mapper=vm, block_mapper=bm, clone_operands=kw.get("clone_operands", True))
+    if vm is None:
+        return Act("Operation.clone_without_regions", lambda: o.clone_without_regions(**kw), [o], f"{g.n(o)}.clone_without_regions({kd[2:]})", clone=spec, group="clone")
+    return Act("Operation.clone_without_regions", lambda: o.clone_without_regions(vm, bm, **kw), [o, *vm.values(), *bm.values()], f"{g.n(o)}.clone_without_regions({d}{kd})", clone=spec, group="clone")
 
 
 @gen("Region.clone", "clone", 3)
@@ -1299,11 +1374,12 @@ def _clone_into(g: G) -> Act | None:
     n = region_len(d)
     mode = g.s.choice(3)
     idx: int | None = None if mode == 0 else g.s.pos_choice(n + 1)
-    spec = CloneSpec("region.clone_into", r, dest=d, index=idx)
-    if g.s.flag(1, 3):
-        spec.value_mapper, spec.block_mapper = {}, {}
-        return Act("Region.clone_into", lambda: r.clone_into(d, idx, spec.value_mapper, spec.block_mapper), [r, d], f"{g.n(r)}.clone_into({g.n(d)}, {idx}, {{}}, {{}})", clone=spec, group="clone")
-    return Act("Region.clone_into", lambda: r.clone_into(d, idx), [r, d], f"{g.n(r)}.clone_into({g.n(d)}, {idx})", clone=spec, group="clone")
+    vm, bm, md = _mappers(g, r)
+    kw, kd = _clone_opts(g)
+    spec = CloneSpec("region.clone_into", r, dest=d, index=idx, value_mapper=vm, block_mapper=bm, clone_operands=kw.get("clone_operands", True))
+    if vm is None:
+        return Act("Region.clone_into", lambda: r.clone_into(d, idx, **kw), [r, d], f"{g.n(r)}.clone_into({g.n(d)}, {idx}{kd})", clone=spec, group="clone")
+    return Act("Region.clone_into", lambda: r.clone_into(d, idx, vm, bm, **kw), [r, d, *vm.values(), *bm.values()], f"{g.n(r)}.clone_into({g.n(d)}, {idx}, {md}{kd})", clone=spec, group="clone")
 
 
 class HarnessPass:
